@@ -170,3 +170,11 @@ def canaries(tier, seed):
     r = run("quick", seed, mutant="buffer_release_early", only_validate=True)
     out.append(dict(name="mutant:buffer_release_early", detected=bool(r.violations), rejected=len(r.violations)))
     return out
+
+
+TRACE_MODULE = "AsyncBufferTrace"
+
+
+def replay(v):
+    import sys as _s
+    return amod.replay_node(_s.modules[__name__], v)
